@@ -16,6 +16,10 @@ ThreadPoolExecutor* pool; uint64_t ran[4]; uint64_t in_pool[4]; uint64_t worker_
 // LOCAL_TASK(k): what enqueue_task does for a task submitted from inside worker 1 (its local queue), done as thread 1 in set-up
 #define LOCAL_TASK(k) pool->_local_task_queues.local().push<false, false, false>(ThreadPoolExecutor::Task {.type = ThreadPoolExecutor::TaskType::FUNCTION, .function {[] { __atomic_fetch_add(&ran[k], 1, __ATOMIC_RELAXED); in_pool[k] = pool->is_running_in() ? 1 : 0; }}})
 #define GLOBAL_STOP() pool->_global_task_queue.push<true, false, true>(ThreadPoolExecutor::Task {.type = ThreadPoolExecutor::TaskType::STOP, .function {}})
+// what a stealing worker / the balance thread does to ANOTHER worker's local queue (the very call in keep_execute's steal loop),
+// played by a harness thread on worker 1's queue (lq is taken in set-up as thread 1)
+ThreadPoolExecutor::Task* dummy_task_type; decltype(&((ThreadPoolExecutor*)nullptr)->_local_task_queues.local()) lq; uint64_t stolen;
+#define STEAL_ONCE() do { ThreadPoolExecutor::Task task; if (lq->try_pop<true, false>(task)) { stolen++; if (task.type == ThreadPoolExecutor::TaskType::FUNCTION) task.function(); } } while (0)
 #define BODY(n) extern "C" void vf_thread_##n() { VF_T##n; }
 extern "C" void vf_init() { pool = new ThreadPoolExecutor; pool->set_worker_number(0); pool->set_global_capacity(2); pool->set_local_capacity(VF_LOCAL);
 #ifdef VF_STEAL
@@ -31,7 +35,7 @@ BODY(0)
 #endif
 #ifdef VF_T1
 BODY(1)
-extern "C" void vf_prologue_1() { (void)pool->_local_task_queues.local();
+extern "C" void vf_prologue_1() { lq = &pool->_local_task_queues.local();
 #ifdef VF_PRO1
   VF_PRO1;
 #endif
